@@ -356,6 +356,11 @@ func (g *generator) args(module, verb string, nfaces int) (*mgmt.ControlArgs, st
 		if g.chance(0.3) {
 			a.Mtu = utils.IdPtr(mtuPool[g.r.Intn(len(mtuPool))])
 		}
+		if a.Uri != nil && (*a.Uri == "udp4://10.1.2.3:6363" || *a.Uri == "tcp4://10.1.2.3:6363") && g.chance(0.7) {
+			// a valid unicast URI with an MTU below the floor: refused with 406 before a socket is opened
+			a.Mtu = utils.IdPtr(mtuPool[g.r.Intn(16)])
+			label = "create-small-mtu"
+		}
 	}
 	switch module + "/" + verb {
 	case "rib/register":
